@@ -1029,12 +1029,12 @@ pub fn mutate_step<E: Elem, Tr: ?Sized + TrSet, M: MemB>(v: &mut AnyVec<Tr, M>, 
         }
         MUT_TYPED_SLICE => {
             let mut tv = lib(|| v.downcast_mut::<E>()).expect("LIB: typed view of the real element type");
-            std::mem::replace(&mut lib(|| tv.as_mut_slice())[i], new)
+            std::mem::replace(lib(|| tv.as_mut_slice()).get_mut(i).expect("LIB: typed slice covers the element"), new)
         }
         MUT_BYTES => {
             let size = size_of::<E>();
             let b = lib(|| v.as_bytes_mut());
-            let p = b[i * size..].as_mut_ptr() as *mut E;
+            let p = b.get_mut(i * size..(i + 1) * size).expect("LIB: byte view covers the element").as_mut_ptr() as *mut E;
             unsafe { std::ptr::replace(p, new) }
         }
         MUT_ITER_MUT => {
